@@ -224,6 +224,14 @@ func dischargeIndex(ff *FuncFacts, blk *ssa.BasicBlock, base, idx ssa.Value) Dis
 	if ok, why := factsEntailLE(fs, it, ln, 1); ok {
 		return Discharge{true, "dominating fact " + why + " entails index < " + ln.String(), ""}
 	}
+	// the standard library's search functions return -1 or a position inside their argument
+	if it.Op == "call" && len(it.Args) >= 1 && it.Args[0].String() == bt.String() {
+		for _, fnName := range []string{"slices.Index", "slices.IndexFunc"} {
+			if it.Sym == fnName || strings.HasPrefix(it.Sym, fnName+"[") {
+				return Discharge{true, fnName + " returns a position inside its argument (or -1, excluded by the lower-bound fact)", ""}
+			}
+		}
+	}
 	// constant index k with a fact len(base) >= k+1 / != 0 for k == 0 / == n
 	if it.Op == "const" {
 		var k int64
